@@ -167,7 +167,8 @@ func arrayExecInsert(ar *Array, values []r.Element) (r.Element, error) {
 		return nil, err
 	}
 	v := values[1].(*Number)
-	ar.value = insertArrayValue(ar.value, int(v.value), values[0])
+	// the list holds a copy of the value (as `L#i = V` does): a list can never come to contain itself
+	ar.value = insertArrayValue(ar.value, int(v.value), DuplicateValue(values[0]))
 
 	return ar, nil
 }
@@ -176,7 +177,7 @@ func arrayExecPrepend(ar *Array, values []r.Element) (r.Element, error) {
 	if err := ValidateExactParams(values, "any"); err != nil {
 		return nil, err
 	}
-	ar.value = insertArrayValue(ar.value, 0, values[0])
+	ar.value = insertArrayValue(ar.value, 0, DuplicateValue(values[0]))
 	return ar, nil
 }
 
@@ -184,7 +185,7 @@ func arrayExecAppend(ar *Array, values []r.Element) (r.Element, error) {
 	if err := ValidateExactParams(values, "any"); err != nil {
 		return nil, err
 	}
-	ar.value = insertArrayValue(ar.value, len(ar.value), values[0])
+	ar.value = insertArrayValue(ar.value, len(ar.value), DuplicateValue(values[0]))
 	return ar, nil
 }
 
